@@ -8,7 +8,9 @@ PROP = {
  'race_allow': [r'/gsfa\.', r'/gsfa/linkedlog\.', r'/gsfa/manifest\.'],
  'runs': [
    {'name': 'records', 'pkg': './gsfa/linkedlog', 'run': '^TestVerifC06', 'timeout': '20m'},
-   {'name': 'gsfa', 'pkg': './gsfa', 'run': '^TestVerifC06', 'timeout': '40m', 'timeout_thorough': '120m'},
-   {'name': 'gsfa-race', 'pkg': './gsfa', 'run': '^TestVerifC06', 'race': True, 'timeout': '90m', 'timeout_thorough': '240m', 'env': {'VERIF_PART_SUFFIX': '-race', 'VERIF_RACE': '1'}},
+   {'name': 'gsfa', 'pkg': './gsfa', 'run': '^TestVerifC06Real$', 'timeout': '40m', 'timeout_thorough': '120m'},
+   {'name': 'sched', 'pkg': './gsfa', 'run': '^TestVerifC06Sched$', 'rewrite': ['gsfa-sched', 'pubkey-index-small'], 'timeout': '40m', 'timeout_thorough': '120m'},
+   {'name': 'sched-race', 'pkg': './gsfa', 'run': '^TestVerifC06Sched$', 'rewrite': ['gsfa-sched', 'pubkey-index-small'], 'race': True, 'timeout': '60m', 'timeout_thorough': '240m', 'env': {'VERIF_PART_SUFFIX': '-race', 'VERIF_RACE': '1'}},
+   {'name': 'gsfa-race', 'pkg': './gsfa', 'run': '^TestVerifC06Real$', 'race': True, 'timeout': '90m', 'timeout_thorough': '240m', 'env': {'VERIF_PART_SUFFIX': '-race', 'VERIF_RACE': '1'}},
  ],
 }
